@@ -117,7 +117,8 @@ Inductive case :=
         (* for multi-chain lists, per tx index: (index, child index, branch of the tx in its
            child chain, index of the chain, branch of the chain in the root list), computed by
            GetMerkleBranch as getMultiLayerProofs does *)
-| CServe (fork : bool)                (* the block's height is at/after ForkRootHash *)
+| CServe (fork : bool)                (* the block's height (main height on a para-chain node) is at/after ForkRootHash *)
+        (para : bool)                 (* the node runs with blockchain.isParaChain *)
         (raw : bool)                  (* a peer block that the harness built with the list in the generated order
                                          (false: built by util.CreateNewBlock or mined by the node itself) *)
         (txs tb : list string)        (* txs in stored order: title id (0 = main; para ids in title-string
@@ -295,14 +296,20 @@ Section WithTable.
     nlist_eqb (rp_proofs a) (rp_proofs b) && list_all2 txproof_eqb (rp_txproofs a) (rp_txproofs b)
     && (rp_full a =? rp_full b) && (rp_index a =? rp_index b).
 
-  Fixpoint check_replies (fork : bool) (txs : list (btx N)) (i : nat) (rs : list (reply N)) : bool :=
+  Fixpoint check_replies (fork para : bool) (txs : list (btx N)) (i : nat) (rs : list (reply N)) : bool :=
     match rs with
     | [] => Nat.eqb i (List.length txs)
     | r :: tl =>
-        match proc_query_tx N 0 H N.eqb fork false 1%Z txs i with
+        match proc_query_tx N 0 H N.eqb fork para 1%Z txs i with
         | Some mr => reply_eqb mr r
         | None => false
-        end && check_replies fork txs (S i) tl
+        end && check_replies fork para txs (S i) tl
+    end.
+
+  Definition same_title_b (txs : list (btx N)) : bool :=
+    match txs with
+    | [] => true
+    | x :: tl => forallb (fun y => title_eqb (bt_title x) (bt_title y)) tl
     end.
 
   (* the oracle on the implementation's replies: reply i checks for transaction i against the
@@ -327,21 +334,24 @@ Section WithTable.
         end && spec_replies fork root txs (S i) tl
     end.
 
-  Definition check_serve (fork raw : bool) (txl : list N) (txhash : N) (rows : list N)
+  Definition check_serve (fork para raw : bool) (txl : list N) (txhash : N) (rows : list N)
              (replies : list (N * N * list string * list (list string * N * N))) : verdict :=
     let txs := triples_btx txl in
     let rs := map impl_reply replies in
     let sorted := tsorted (map bt_title txs) in
     let magree :=
       optN_eqb (block_txhash N 0 H fork 1%Z txs) (Some txhash)
-      && (if fork then list_all2 row_eqb (save_para_rows N 0 H 1%Z (map (to_mtx N) txs)) (quints rows) else true)
-      && check_replies fork txs 0 rs in
+      && (if fork && negb para then list_all2 row_eqb (save_para_rows N 0 H 1%Z (map (to_mtx N) txs)) (quints rows) else true)
+      && check_replies fork para txs 0 rs in
     let spec :=
       negb (txhash =? miss) && negb (txhash =? 0)
       && Nat.eqb (List.length rs) (List.length txs)
       && spec_replies fork txhash txs 0 rs in
-    (* known finding 1: a received post-fork block whose list is not title-sorted was accepted *)
-    (magree, spec, if negb spec && fork && raw && negb sorted then 1 else 0).
+    (* known finding 1: a received post-fork block whose list is not title-sorted was accepted;
+       known finding 2: para-chain node, title-sorted post-fork block with more than one title *)
+    (magree, spec,
+     if negb spec && fork && negb para && raw && negb sorted then 1
+     else if negb spec && fork && para && sorted && negb (same_title_b txs) then 2 else 0).
 End WithTable.
 
 Definition check_case (c : case) : verdict :=
@@ -356,6 +366,6 @@ Definition check_case (c : case) : verdict :=
       check_pair (table_of (TExplicit t) []) (ids_of l1) (ids_of l2) r1 r2 m1 m2
   | CMulti txs t pars proofs =>
       check_multi (table_of (TExplicit t) []) (nums txs) pars proofs
-  | CServe fork raw txs t txhash rows replies =>
-      check_serve (table_of (TExplicit t) []) fork raw (nums txs) txhash (nums rows) replies
+  | CServe fork para raw txs t txhash rows replies =>
+      check_serve (table_of (TExplicit t) []) fork para raw (nums txs) txhash (nums rows) replies
   end.
